@@ -83,6 +83,27 @@ def run(chk):
                             chk.fail("%s trained from a bag with %s partitions differs from the in-memory list in %s (order seed %d, isolated=%s)"
                                      % (kind.upper(), k, bad, sd, iso), dict(ctx, kind=kind, npartitions=k, isolated=iso, order_seed=sd,
                                                                            executed_order=sch.orders[-1] if sch.orders else []))
+            # the same machine trained a second time from the SAME bag object with another assignment of the sessions to classes: as from the list
+            y2 = y[1:] + y[:1]
+            if y2 != y:
+                def job2():
+                    m_ = mk()
+                    b_ = bag_of(2)
+                    m_.fit(b_, y)
+                    m_.fit(b_, y2)
+                    return m_
+                ref2 = mk()
+                ref2.fit(stats, np.array(y))
+                ref2.fit(stats, np.array(y2))
+                try:
+                    m2_, _sch = dasksched.run_under(100 * chk.seed, False, job2)
+                    chk.count(1, key=(kind, "second fit, same bag, other labels"))
+                    bad = [nm for nm, a, b in (("U", m2_.U, ref2.U), ("D", m2_.D, ref2.D)) + ((("V", m2_.V, ref2.V),) if kind == "jfa" else ()) if not close(a, b)]
+                    if bad:
+                        chk.fail("%s fitted a second time from the same bag with other labels differs from the same two fits on the in-memory list in %s" % (kind.upper(), bad),
+                                 dict(ctx, kind=kind, npartitions=2, second_labels=y2))
+                except Exception as e:
+                    chk.fail("%s second fit from the same bag raises %r" % (kind.upper(), e), dict(ctx, kind=kind, second_labels=y2))
         # ------------------------------------------------------------ i-vector (pairwise tree reduction: odd and even)
         t = r.choice([1, 2])
         upd = bool(rd % 2)
